@@ -21,6 +21,38 @@ Proof.
 Qed.
 
 (* ------------------------------------------------------------------ ParseAccept *)
+(* ---- every helper of ParseAccept returns a suffix that is no longer than its input ---- *)
+Lemma skip_space_len s : (length (skip_space s) <= length s)%nat.
+Proof. induction s as [|c r IH]; simpl; [lia|]. destruct (is_space_b c); simpl; lia. Qed.
+
+Lemma ets_len s : (length s = length (fst (expect_token_slash s)) + length (snd (expect_token_slash s)))%nat.
+Proof.
+  induction s as [|c r IH]; simpl; [reflexivity|].
+  destruct (is_token_b c || (c =? 47)); [|reflexivity].
+  destruct (expect_token_slash r) as [t rest]. simpl in *. lia.
+Qed.
+
+Lemma strip_prefix_len p : forall s r, strip_prefix p s = Some r -> (length r <= length s)%nat.
+Proof.
+  induction p as [|y p IH]; intros s r H; simpl in H; [inversion H; lia|].
+  destruct s as [|x s]; [discriminate|]. destruct (x =? y); [|discriminate]. apply IH in H. simpl. lia.
+Qed.
+
+Lemma q_digits_len s : forall n d, (length (snd (q_digits s n d)) <= length s)%nat.
+Proof.
+  induction s as [|b r IH]; intros n d; simpl; [lia|].
+  destruct ((48 <=? b) && (b <=? 57)); [specialize (IH (wrap64 (n * 10 + b - 48)) (wrap64 (d * 10))); lia | simpl; lia].
+Qed.
+
+Lemma expect_quality_len s : (length (snd (expect_quality s)) <= length s)%nat.
+Proof.
+  unfold expect_quality. destruct s as [|c r]; [simpl; lia|].
+  destruct ((c =? 48) || (c =? 49)); [|simpl; lia].
+  destruct (strip_prefix [46] r) as [r'|] eqn:P; [|simpl; lia].
+  apply strip_prefix_len in P. pose proof (q_digits_len r' 0 1) as Q.
+  destruct (q_digits r' 0 1) as [[n d] rest]. simpl in *. lia.
+Qed.
+
 Definition nonneg (a : aspec) : Prop := flt (sq a) pzero = false.
 Local Arguments strip_prefix : simpl never.
 Local Arguments Z.add : simpl never.
@@ -47,6 +79,31 @@ Proof.
   intros vals a H. unfold parse_accept in H. apply in_flat_map in H. destruct H as (s & _ & H).
   pose proof (parse_value_nonneg (S (length s)) s) as F. rewrite Forall_forall in F. exact (F _ H).
 Qed.
+
+(* the fuel of the inner loop never runs out: any two fuels above the length of the value agree *)
+Lemma parse_value_fuel : forall f1 f2 s, (length s < f1)%nat -> (length s < f2)%nat -> parse_value f1 s = parse_value f2 s.
+Proof.
+  induction f1 as [|f1 IH]; intros f2 s H1 H2; [lia|]. destruct f2 as [|f2]; [lia|]. simpl.
+  pose proof (ets_len s) as L. destruct (expect_token_slash s) as [v s1]. simpl in L.
+  destruct v as [|c v]; [reflexivity|]. simpl in L.
+  pose proof (skip_space_len s1) as L1.
+  assert (A : forall x, (length x <= length s1)%nat ->
+              match strip_prefix [44] (skip_space x) with Some r => parse_value f1 (skip_space r) | None => [] end =
+              match strip_prefix [44] (skip_space x) with Some r => parse_value f2 (skip_space r) | None => [] end).
+  { intros x Hx. pose proof (skip_space_len x) as Lx. destruct (strip_prefix [44] (skip_space x)) as [r|] eqn:P; [|reflexivity].
+    apply strip_prefix_len in P. pose proof (skip_space_len r) as Lr. apply IH; lia. }
+  destruct (strip_prefix [59] (skip_space s1)) as [s3|] eqn:P3.
+  - apply strip_prefix_len in P3. pose proof (skip_space_len s3) as L3.
+    destruct (strip_prefix [113; 61] (skip_space s3)) as [s5|] eqn:P5; [|reflexivity].
+    apply strip_prefix_len in P5. pose proof (expect_quality_len s5) as L6.
+    destruct (expect_quality s5) as [q s6]. simpl in L6. destruct (flt q pzero); [reflexivity|].
+    f_equal. apply A. lia.
+  - f_equal. apply A. lia.
+Qed.
+
+Lemma parse_value_fuel_sufficient_lemma : forall fuel s, (S (length s) <= fuel)%nat ->
+  parse_value fuel s = parse_value (S (length s)) s.
+Proof. intros fuel s H. apply parse_value_fuel; lia. Qed.
 
 (* ------------------------------------------------------------------ NegotiateContentEncoding *)
 (* invariant of the inner loop over the specs *)
